@@ -107,8 +107,23 @@ func detBundle(rng *rand.Rand) *jBundle {
 	}
 	f.Elems = append(f.Elems, &jElem{Decl: &jDecl{Kind: kEnum, Name: "InfoEnum", Options: opts, OptInfo: info}})
 	f.Elems = append(f.Elems, objDecl("ManyTypes", fld("when", tScalar(kTimestamp)), fld("day", tScalar(kDate)), fld("amount", tScalar(kDecimal)), fld("whatever", tScalar("any")),
-		fld("ident", tKeyF("id62").with(func(t *jT) { t.Rules = nil })), fld("count", tInt("INT32").with(func(t *jT) { t.Rules = &jRules{Min: pI(1), Max: pI(9)}; t.List = &jList{Filterable: true, Sortable: true} })),
+		fld("ident", tKeyF("id62").with(func(t *jT) { t.Rules = nil })), fld("count", tInt("INT32").with(func(t *jT) {
+			t.Rules = &jRules{Min: pI(1), Max: pI(9)}
+			t.List = &jList{Filterable: true, Sortable: true}
+		})),
 		fld("names", tArr(tScalar(kString).with(func(t *jT) { t.Rules = &jRules{MinLen: pU(1)} })).with(func(t *jT) { t.Rules = &jRules{MinItems: pU(1), MaxItems: pU(5), Unique: pB(true)} }))))
+	// a hand-written proto file of the package that declares options for several kinds of element
+	dir := f.Path[:strings.LastIndex(f.Path, "/")]
+	if b.Protos == nil {
+		b.Protos = map[string]string{}
+	}
+	b.Protos[dir+"/extras.proto"] = "syntax = \"proto3\";\n\npackage " + f.Pkg + ";\n\nimport \"google/protobuf/descriptor.proto\";\n\n" +
+		"extend google.protobuf.FieldOptions {\n  string verif_note = 51001;\n  int32 verif_rank = 51002;\n}\n\n" +
+		"extend google.protobuf.MessageOptions {\n  string verif_msg_note = 51001;\n}\n\n" +
+		"extend google.protobuf.EnumOptions {\n  bool verif_flag = 51001;\n}\n\n" +
+		"extend google.protobuf.ServiceOptions {\n  string verif_svc = 51001;\n}\n\n" +
+		"extend google.protobuf.MethodOptions {\n  string verif_method = 51001;\n}\n\n" +
+		"// uses them\nmessage ExtrasUser {\n  option (verif_msg_note) = \"noted\";\n\n  string a = 1 [\n    (verif_note) = \"n\",\n    (verif_rank) = 2\n  ];\n\n  enum Kind {\n    option (verif_flag) = true;\n\n    KIND_UNSPECIFIED = 0;\n  }\n}\n"
 	return b
 }
 
@@ -186,6 +201,7 @@ func c14Check(c *rt.C, b *jBundle, id string) map[string]string {
 				c.Violate("configuration-changes-outcome/"+cfg.name, fmt.Sprintf("bundle %s compiles in the baseline configuration but fails in configuration %q: %v", id, cfg.name, err), srcDetail(src))
 			} else {
 				c.Event("bundle_does_not_compile")
+				c.Feature("c14:compile-failed/" + id + "/" + errSig(err))
 			}
 			return nil
 		}
